@@ -82,7 +82,11 @@ impl<P: Problem> Component<P> for Block<P> {
 
     fn execute(&self, problem: &P, state: &mut State<P>) -> ExecResult<()> {
         for component in &self.0 {
+            #[cfg(mahf_verif)]
+            crate::verif::block_before(component.as_ref(), problem, state)?;
             component.execute(problem, state)?;
+            #[cfg(mahf_verif)]
+            crate::verif::block_after(component.as_ref(), problem, state);
         }
         Ok(())
     }
@@ -196,10 +200,18 @@ impl<P: Problem> Component<P> for Loop<P> {
 
     fn execute(&self, problem: &P, state: &mut State<P>) -> ExecResult<()> {
         self.condition.init(problem, state)?;
+        #[cfg(mahf_verif)]
+        crate::verif::loop_event(self, crate::verif::LoopEvent::Enter, problem, state);
         while self.condition.evaluate(problem, state)? {
+            #[cfg(mahf_verif)]
+            crate::verif::loop_event(self, crate::verif::LoopEvent::PassBegin, problem, state);
             self.body.execute(problem, state)?;
             *state.try_borrow_value_mut::<common::Iterations>()? += 1;
+            #[cfg(mahf_verif)]
+            crate::verif::loop_event(self, crate::verif::LoopEvent::PassEnd, problem, state);
         }
+        #[cfg(mahf_verif)]
+        crate::verif::loop_event(self, crate::verif::LoopEvent::Exit, problem, state);
         Ok(())
     }
 }
